@@ -106,6 +106,32 @@ def explore(make, actions, methods, canon, spec_init, spec_step, observe, max_de
     return len(seen), transitions, not open_left, deepest
 
 
+def generic_canon(x, _depth=0):
+    """Hashable canonical form of an arbitrary object graph: every attribute takes part, so a
+    field added to the implementation is automatically part of the explored state."""
+    import functools
+    import types
+
+    if _depth > 12:
+        return ("...",)
+    if x is None or isinstance(x, (bool, int, float, str, bytes)):
+        return x
+    if isinstance(x, (list, tuple)):
+        return (type(x).__name__,) + tuple(generic_canon(i, _depth + 1) for i in x)
+    if isinstance(x, (set, frozenset)):
+        return ("set",) + tuple(sorted((generic_canon(i, _depth + 1) for i in x), key=repr))
+    if isinstance(x, dict):
+        return ("dict",) + tuple((generic_canon(k, _depth + 1), generic_canon(v, _depth + 1)) for k, v in x.items())
+    if isinstance(x, functools.partial):
+        return ("partial", generic_canon(x.func, _depth + 1), generic_canon(x.args, _depth + 1),
+                generic_canon(x.keywords, _depth + 1))
+    if isinstance(x, (types.FunctionType, types.MethodType, type)):
+        return ("callable", getattr(x, "__qualname__", repr(x)))
+    if hasattr(x, "__dict__"):
+        return (type(x).__name__,) + tuple((k, generic_canon(v, _depth + 1)) for k, v in sorted(vars(x).items()))
+    return ("repr", repr(x))
+
+
 def replay_history(make, methods, history):
     """Plain replay of one recorded history without the explorer: list of outcomes."""
     obj = make()
